@@ -87,7 +87,38 @@ def exact_sign(n, p, v):
     return (e > 0) - (e < 0)
 
 
+# the expressions Model/Filter.v transcribes, whitespace- and comment-free; if the text of half_space.rs no longer contains them the model
+# may describe different code: reported as an unproved obligation (the bit-level comparison below then decides whether behaviour changed)
+TRANSCRIBED = [
+    "constEPSILON:f64=1e-13;",
+    "leterrb=Self::EPSILON*(1.+n.abs().dot(p.abs()));",
+    "d:n.dot(p),",
+    "letclip=self.plane.n.dot(vertex)-self.d;",
+    "letscale=self.plane.p.abs().max_element().max(vertex.abs().max_element());",
+    "leterrb=self.errb.max(Self::EPSILON*self.plane.n.abs().element_sum()*scale);",
+    "ifclip.abs()<errb{0.}else{clip.signum()}",
+]
+
+
+def source_obligation(res):
+    path = os.path.join(C.REPO, "src", "voronoi", "half_space.rs")
+    try:
+        txt = open(path).read()
+    except OSError:
+        res.violation("proof:C05-filter-source", "src/voronoi/half_space.rs not found: Model/Filter.v has no source to be a transcription of", {"file": path}, no_input=True)
+        return
+    txt = re.sub(r"//[^\n]*", "", txt)
+    txt = re.sub(r"\s+", "", txt)
+    missing = [t for t in TRANSCRIBED if t not in txt]
+    res.count("filter:source-expressions", len(TRANSCRIBED))
+    if missing:
+        res.violation("proof:C05-filter-source", "half_space.rs no longer contains the expressions transcribed in Model/Filter.v (" + "; ".join(missing[:3]) +
+                      "): the theorem C05_filter_conclusive_is_exact_sign_binary64 is not known to speak about this code", {"missing": missing, "file": "src/voronoi/half_space.rs"}, no_input=True)
+
+
 def run_clause(res, rng, tier, recs, replay_case=None):
+    if not replay_case:
+        source_obligation(res)
     cases = [replay_case] if replay_case else gen_cases(rng, tier, recs)
     cases = [c for c in cases if all(math.isfinite(C.b2f(x)) for w in c[1:] for x in w)]
     wd = C.rundir("c05")
